@@ -199,6 +199,20 @@ def run(tier, seed):
             if l % 4 == 0:
                 sc.req("completion", p, l, 4, "comma")
     scs.append(sc)
+    # (fixed) completion INSIDE an installed plugin module the editor opened: its own fixtures are same-file items
+    # (class 0) before the project's conftest fixtures (class 1), whatever flags they carry for other files
+    sp = ".venv/lib/python3.12/site-packages/tp/"
+    files = {"conftest.py": "import pytest\n\n@pytest.fixture\ndef shared():\n    return 0\n",
+             sp + "__init__.py": "",
+             sp + "plugin.py": "import pytest\n\n@pytest.fixture\ndef tp_a():\n    return 1\n\n@pytest.fixture\ndef tp_b():\n    return 2\n\ndef test_in_plugin():\n    pass\n",
+             "test_proj.py": "def test_p():\n    pass\n"}
+    sc = stdio.StdioCase("ownplugin", files)
+    for p in ("conftest.py", sp + "plugin.py", "test_proj.py"):
+        sc.open(p)
+    for p in (sp + "plugin.py", "test_proj.py"):
+        for l in range(files[p].count("\n") + 1):
+            sc.req("completion", p, l, 0)
+    scs.append(sc)
     res, mcases, msp = stdio.run_all(r, scs)
     nitems = 0
     for (sc, i, step, a, m, k) in res:
